@@ -1,11 +1,665 @@
-"""Per-property configuration for ./check (lanes, budgets, evidence rule text)."""
+"""Per-property configuration for ./check (lanes, budgets, evidence rule text, coverage that must be observed)."""
 
-PROPS = {
-    "selftest": {
-        "rule": "model self-tests: every assert of /repo/test/*.test.did replayed through R1+R2; random (env, types, values): "
-                "R1 encode/decode identity, R2 identity coercion, R3 reflexive, R3-yes implies R2 succeeds. "
-                "non-trivial = distinct (wire type, expected type) pairs or distinct spec assertions",
-        "lanes_quick": ["D"], "lanes_thorough": ["D"], "budget_quick": 8, "budget_thorough": 30, "max_workers": 4,
-        "required_counters": ["spec:agree"],
-    },
-}
+PROPS = {'C01': {'assumptions': ['hostile bytes inside histories are decoded under a decoding quota (unmetered decoding of hostile input is unbounded by design)',
+                         'equality of hash containers is set equality; their encoded bytes are not compared between the two runs'],
+         'budget_quick': 20,
+         'budget_thorough': 150,
+         'lanes_quick': ['D', 'R'],
+         'lanes_thorough': ['D', 'R'],
+         'required_counters': ['cover:kind:BTreeMap',
+                               'cover:kind:HashMap',
+                               'cover:kind:recursive',
+                               'cover:kind:reference',
+                               'cover:kind:Option',
+                               'cover:kind:tuple',
+                               'cover:kind:array',
+                               'cover:kind:struct',
+                               'cover:kind:enum'],
+         'rule': 'probe = round-trip (IDLBuilder::arg + serialize; IDLDeserialize::new/get_value/is_done/done) of a generated value of one of the corpus Rust '
+                 'types (cross product of leaves incl. u128/i128/Nat/Int/Principal/func+service references/derived structs+enums/recursive and mutually '
+                 'recursive types under Option, Vec, VecDeque, LinkedList, arrays, tuples, sets, BTreeMap/HashMap over 9 key types x 12 value types, nested '
+                 'maps; count in coverage.corpus_types) executed twice: in a fresh thread with an empty history, and in a fresh thread after a random history '
+                 'of 0..12 earlier calls (type derivation, round-trips, encode-only, metered decodes of mutated bytes, IDLBuilder::new, untyped decodes, '
+                 'decodes of foreign messages). Oracle: both succeed, leave nothing unread, return a value equal to the original (floats bitwise, NaN payloads '
+                 'included) and (except hash containers, whose iteration order is per instance) produce identical bytes. non-trivial = non-empty value; '
+                 'distinct by (Rust type, encoded length, history shape)'},
+ 'C02': {'assumptions': ["every type is a subtype of every option type (the option rules of spec/Candid.md taken together; the repository's spec tests agree)",
+                         'wire table entries that are records containing themselves through record fields alone denote `empty` when wire reference types are '
+                         'compared (normalisation done by the decoder and relied on by test/subtypes.test.did)',
+                         'a coercion whose derivation descends without bound (a non-optional value at `type O = opt O`) is treated as a nesting limit (spec '
+                         "suite: 'fix opt'), like nesting deeper than 400 and type tables over 10000 entries: excluded, still must not panic",
+                         'non-minimal constructor opcodes / annotation counts and LEB128 counts longer than 9 bytes are implementation limits (excluded)'],
+         'budget_quick': 20,
+         'budget_thorough': 180,
+         'lanes_quick': ['D', 'R'],
+         'lanes_thorough': ['D', 'R'],
+         'required_counters': ['cover:rule:opt:backtrack',
+                               'cover:rule:opt:constituent-backtrack',
+                               'cover:rule:record:missing-optional',
+                               'cover:rule:record:surplus',
+                               'cover:rule:variant:unknown-tag',
+                               'cover:rule:reference:not-subtype',
+                               'cover:rule:nat<:int',
+                               'cover:rule:service<:principal',
+                               'cover:rule:args:missing-optional',
+                               'cover:rule:args:surplus',
+                               'agree:malformed',
+                               'agree:coercion-fails',
+                               'agree:value',
+                               'cover:mutated'],
+         'rule': 'a valid message of random possibly recursive wire types (reference encoder R1, canonical or legally non-canonical table: duplicate/unused '
+                 'entries, permuted table, padded LEB128) is decoded with IDLArgs::from_bytes_with_types at an expected type sequence that is identical / '
+                 'derived by legal upgrade steps / by mixed legal+illegal steps / unrelated / with fewer or more arguments, some labels spelled as names; one '
+                 'third of the second family is byte-mutated first. Oracle: reference decoder R1 (malformed => must fail; documented limits excluded) then '
+                 'spec coercion R2 (fails => must fail; succeeds => candid must succeed with exactly the coerced values); IDLArgs::from_bytes must equal R1 '
+                 'itself. non-trivial = expected types differ from wire types or bytes mutated; distinct by (wire shapes, expected shapes, outcome class). '
+                 'coverage.counters cover:rule:* are the R2 rule applications'},
+ 'C03': {'assumptions': ["IDLArgs::to_bytes infers a vector's element type from its first element: values with heterogeneous vectors have no inferred type and "
+                         'are excluded from the to_bytes check (counter excluded:to_bytes-heterogeneous-vector)',
+                         'hash containers are excluded from the byte-determinism comparison'],
+         'budget_quick': 20,
+         'budget_thorough': 150,
+         'lanes_quick': ['D', 'R'],
+         'lanes_thorough': ['D', 'R'],
+         'required_counters': ['family:native-corpus', 'family:untyped', 'agree:to_bytes'],
+         'rule': '(a) 0..3 generated values of corpus Rust types through IDLBuilder::arg/serialize_to_vec; (b) generated (environment with aliases, knots, '
+                 'mutual recursion, shared sub-types; types; values; some labels as names) through IDLArgs::to_bytes_with_types and '
+                 'IDLBuilder::value_arg_with_type, and IDLArgs::to_bytes on the values as the decoder returns them when their vectors are homogeneous. Oracle: '
+                 'the reference decoder R1 accepts the bytes (composite-only table, ascending unique field ids, ascending unique method names, methods are '
+                 'functions, indices in range), every LEB128 is minimal, argument types are structurally equal (bisimulation) to the source types, abstract '
+                 'values equal the source values, encoding again gives identical bytes. non-trivial: every case; distinct by (types, encoded length)'},
+ 'C04': {'assumptions': ['host limits excluded: 128-bit range of u128/i128, fixed array length',
+                         'coercions without a finite derivation (value at `type O = opt O`) are excluded (counter excluded:coercion-diverges)'],
+         'budget_quick': 20,
+         'budget_thorough': 150,
+         'lanes_quick': ['D', 'R'],
+         'lanes_thorough': ['D', 'R'],
+         'required_counters': ['cover:checker-accepts',
+                               'cover:checker-rejects',
+                               'agree:decodes-at-supertype',
+                               'agree:indirect~direct',
+                               'agree:native-decodes-at-supertype',
+                               'cover:native-pair-accepted'],
+         'rule': 'untyped: chains t0,t1,t2 of random upgrade steps over random recursive environments; for every pair the *checker* accepts, three generated '
+                 'values of the subtype are encoded at it by candid and decoded at the supertype: must succeed, be of the supertype (R7), equal the spec '
+                 'coercion R2, and decoding via t1 then t2 must be related to decoding directly at t2 by the relation ~ (opt v ~ null). native: random pairs '
+                 'of corpus Rust types whose Candid types the checker relates: a generated value of the first must decode at the second (documented host '
+                 'limits excluded). non-trivial = pair of different types; distinct by type shapes / type names'},
+ 'C05': {'assumptions': ['every type is a subtype of every option type (see C02)',
+                         'the rule set itself is not transitive where a field is dropped and re-added at type null (only opt and reserved absorb every type): '
+                         'such triples are counted (observed:spec-relation-not-transitive), candid follows the rules'],
+         'budget_quick': 25,
+         'budget_thorough': 240,
+         'exhaustive_whole': False,
+         'lanes_quick': ['D', 'R'],
+         'lanes_thorough': ['D', 'R'],
+         'required_counters': ['agree:subtype-yes',
+                               'agree:subtype-no',
+                               'cover:shared-memo-queries',
+                               'cover:transitivity-triples',
+                               'agree:compatible',
+                               'agree:incompatible'],
+         'rule': '(1) EXHAUSTIVE: all environments {new A,B; old A,B} over a catalogue of definition bodies (10 quick / 25 thorough: '
+                 'opt/vec/record/variant/func/service over A,B and leaves) x 8 queries (incl. record { p : opt A; q : B } and its service form); (2) random '
+                 'recursive environments with upgraded twins, both directions, reflexivity, equal vs structural equality, transitivity triples; (3) sequences '
+                 'of queries sharing one memo (reset after a failed query); (4) the same services printed as .did text with permuted fields/definitions and '
+                 'renamed definitions through service_compatible, service_compatibility_report, service_equal. Oracle: greatest fixed point R3 over all '
+                 'reachable pairs; report empty iff compatible; answers with a shared memo = answers with a fresh memo. non-trivial: every query on '
+                 'constructed types; distinct by type-shape pair / environment index'},
+ 'C06': {'assumptions': ['without a decoding quota no work/memory claim is made (unmetered decoding is documented as unbounded): such runs are cut after '
+                         '3*10^6 element accesses and counted as excluded:no-quota-beyond-step-limit',
+                         'the allocation monitor is a counting global allocator in the worker (off in the ASan/valgrind lanes)'],
+         'budget_quick': 25,
+         'budget_thorough': 180,
+         'lanes_quick': ['D', 'R'],
+         'lanes_thorough': ['D', 'R', 'A', 'V'],
+         'max_cases_valgrind': 300,
+         'required_counters': ['family:crafted-bombs',
+                               'family:mutated-native-messages',
+                               'family:mutated-wire-messages',
+                               'family:pending-args-times-optionals',
+                               'outcome:ok',
+                               'outcome:err',
+                               'cover:crafted:zst-bomb:vec',
+                               'cover:crafted:deep:opt',
+                               'cover:crafted:mu-record',
+                               'cover:crafted:long-leb'],
+         'rule': 'hostile inputs (structure-aware mutations of native and reference-encoded messages, 16 hand-built bomb families: zero-size element vectors, '
+                 'deep opt/vec/variant nesting to 10^6, self-containing records, huge table/arg/field counts, length bombs, primitive-vector overflow, future '
+                 'types, over-long LEB128, many pending arguments x many optional values, random bytes after the magic) x expected type (corpus Rust type, '
+                 'random untyped types, none) x configuration (no quota / decoding quota in {0,1,100,10^4,10^6} / skipping quota / both, full error message '
+                 'on/off, max_type_len) x thread stack in {256K,512K,2M,8M}. Monitors: no panic, no process death (journal protocol), with a decoding quota q: '
+                 'element-access steps (hook) <= q+|input|+64, peak live allocation <= 8MiB+256|input|+512q, cumulative requested bytes <= '
+                 "8MiB+256|input|+4096q. non-trivial: distinct (reference decoder's error site class, target kind)"},
+ 'C07': {'assumptions': ['the documented cost model is evaluated on the wire value; values read at `reserved`, surplus arguments and untyped decoding count '
+                         '50x as documented; constant per-message overheads get an absolute allowance of 1500'],
+         'budget_quick': 20,
+         'budget_thorough': 150,
+         'lanes_quick': ['D', 'R'],
+         'lanes_thorough': ['D', 'R'],
+         'required_counters': ['agree:native', 'agree:untyped', 'cover:surplus-arguments', 'cover:unmetered-fails'],
+         'rule': 'valid messages: corpus Rust type + 0..2 surplus arguments (native), and random wire/expected pairs incl. surplus fields, mismatched options, '
+                 'zero-sized elements, references (untyped). Each is decoded unmetered, with huge quotas (cost), at the exact cost, just below it in either '
+                 'quota, above it, at random quota pairs, and with one quota only. Oracle: result equals the unmetered result or is a quota error; success iff '
+                 'both quotas >= the measured cost; reported cost independent of the quotas; decoding cost >= number of wire value nodes; skipping cost >= '
+                 'skipped nodes; element-access steps (hook) <= decoding cost; decoding cost <= 10 x documented cost model + 1500. non-trivial: every message; '
+                 'distinct by (target, length) / type shapes'},
+ 'C08': {'assumptions': ['host limits (excluded, counted): 128-bit integer range, fixed array length, duplicate map/set keys, BoundedVec limits, borrowed '
+                         'slices need a blob/text/principal on the wire'],
+         'budget_quick': 20,
+         'budget_thorough': 150,
+         'lanes_quick': ['D', 'R'],
+         'lanes_thorough': ['D', 'R', 'A'],
+         'required_counters': ['agree:both-accept',
+                               'agree:both-reject',
+                               'cover:wire:lookalike',
+                               'cover:wire:upgraded',
+                               'cover:wire:same',
+                               'agree:bounded-len',
+                               'agree:bounded-total',
+                               'agree:bounded-element',
+                               'agree:both-reject:&[u8]',
+                               'agree:both-accept:&str'],
+         'rule': "corpus Rust type T x message (reference-encoded) whose wire type is T's type, an up/down-graded version, or a look-alike with a similar byte "
+                 'layout (text/blob/principal, nat/int/nat8, nat64/int64/float64, null/reserved swapped at random leaves), plus fixed borrowed/bounded targets '
+                 '(&str, &[u8], &serde_bytes::Bytes, Cow<str>, ByteBuf, three BoundedVec instances) x 11 wire types. Oracle: native decoding succeeds iff '
+                 "IDLArgs::from_bytes_with_types at T's Candid type succeeds (closed list of host limits excluded) and the re-encoded native result denotes "
+                 'the same abstract value (vectors as multisets); BoundedVec accepts exactly within its limits. non-trivial: every case; distinct by (Rust '
+                 'type, wire relation, wire type shape)'},
+ 'C09': {'assumptions': [],
+         'budget_quick': 15,
+         'budget_thorough': 120,
+         'exhaustive_whole': False,
+         'lanes_quick': ['D', 'R'],
+         'lanes_thorough': ['D', 'R'],
+         'required_counters': ['cover:exhaustive-strings', 'cover:len9', 'cover:len10', 'cover:len19', 'cover:len20', 'cover:len25+', 'family:values'],
+         'rule': 'EXHAUSTIVE: all byte strings of length <= 2 (quick) / <= 3 (thorough) through Nat::decode, Int::decode, leb128::decode_nat, decode_int; '
+                 'boundary strings of 7..11, 17..22, 37..38 bytes with every pattern in the top two groups; random strings <= 40 bytes; integers +-2^k+-{0,1}, '
+                 'k<=200 with minimal and padded encodings. Each terminated string is also decoded inside messages followed by a sentinel argument at Nat, '
+                 'Int, Int from nat, u128, i128, i128 from nat, Vec<Nat>, Vec<Int> (from vec int and vec nat), BTreeMap<String,Int>, BTreeMap<u8,Nat>, '
+                 'untyped. Oracle R4: value, bytes consumed, unterminated => error, 128-bit decoders reject iff out of range, encoders minimal. distinct by '
+                 'byte string'},
+ 'C10': {'assumptions': ['corners the property leaves open are not judged: reserved at opt, float64 literal at float32, surplus fields in a record value'],
+         'budget_quick': 20,
+         'budget_thorough': 150,
+         'lanes_quick': ['D', 'R'],
+         'lanes_thorough': ['D', 'R'],
+         'required_counters': ['agree:typed-roundtrip',
+                               'agree:untyped-roundtrip',
+                               'agree:annotate-rejects',
+                               'agree:encode-rejects',
+                               'cover:labels:label=_',
+                               'cover:labels:label-with-comma',
+                               'cover:near-miss:record:field-removed',
+                               'cover:near-miss:variant:other-tag',
+                               'cover:near-miss:width:nat8->nat16'],
+         'rule': 'generated (recursive environment, 1..3 types, inhabitants) with labels spelled as ids or as names (incl. `_`, keywords, commas, quotes): '
+                 'annotate_types(true/false) keeps the abstract value; to_bytes_with_types then from_bytes_with_types at the same types and from_bytes without '
+                 'types return the value (model equality and IDLValue ==). Near-miss family: one edit (wrong number width/sign, kind, reference kind, removed '
+                 'required field, unknown tag, foreign vector element) judged by an independent lenient typing (nat at int, anything at reserved, null at '
+                 'opt): ill-typed values must be rejected by annotate_type(true) and to_bytes_with_types. non-trivial: every case; distinct by type shapes / '
+                 '(edit, type shape)'},
+ 'C11': {'assumptions': ['NaN / infinite floats are never generated (property: floats finite).',
+                         'parse_idl_value has no top-level annotation (`5 : nat8` is not an `Arg`): when it rejects the printed text of an annotated number / '
+                         'null / reserved for that reason the value is re-read as `(text)`; counted under '
+                         'observed:parse_idl_value-rejects-top-level-annotation, not a violation.',
+                         'A printed text with a backslash directly before a non-ASCII character is never fed to the parser (lexing it is UB, see C13); it '
+                         'counts as a read-back failure (stage unparsable-escape).',
+                         'IDLValue::Number and IDLValue::Vec[Nat8..] (forms the decoder never produces) are not generated.'],
+         'budget_quick': 20,
+         'budget_thorough': 120,
+         'lanes_quick': ['D', 'R'],
+         'lanes_thorough': ['D', 'R'],
+         'required_counters': ['agree:display-args',
+                               'agree:debug-args',
+                               'agree:display-value',
+                               'agree:debug-value',
+                               'cover:value:text:nul',
+                               'cover:value:text:nul+hexdigit',
+                               'cover:value:label:nul',
+                               'cover:value:method:nul',
+                               'cover:value:text:double-quote',
+                               'cover:value:text:backslash',
+                               'cover:value:text:del',
+                               'cover:value:text:c0-control',
+                               'cover:value:text:surrogate-adjacent',
+                               'cover:value:text:combining',
+                               'cover:value:text:bidi-or-zero-width',
+                               'cover:value:text:bom',
+                               'cover:printed:text:\\n',
+                               'cover:printed:text:\\t',
+                               'cover:printed:text:\\"',
+                               'cover:printed:text:\\\\',
+                               "cover:printed:text:\\'",
+                               'cover:printed:text:\\u{..}:c0-control',
+                               'cover:printed:blob:\\xx',
+                               'cover:printed:text:raw:astral',
+                               'cover:vec-len:9',
+                               'cover:vec-len:10',
+                               'cover:vec-len:11',
+                               'cover:depth:11',
+                               'cover:depth:12+',
+                               'cover:kind:variant-null-payload',
+                               'cover:kind:opt-of-annotated-number',
+                               'cover:kind:reserved',
+                               'cover:kind:none',
+                               'cover:kind:float64:negative-zero',
+                               'cover:kind:float64:subnormal',
+                               'cover:kind:nat>64bit',
+                               'cover:kind:int>64bit',
+                               'cover:kind:func',
+                               'cover:kind:service',
+                               'cover:label:keyword',
+                               'cover:label:needs-quotes',
+                               'cover:label:numeric'],
+         'rule': 'Values are generated from random model types (gen::types, up to 3 args, recursive envs, func/service/principal) with field ids respelled as '
+                 'hostile names (id = label_hash(name)); converted with conv::to_idl to the IDLValue the decoder would produce; printed with Display and {:?} '
+                 '(IDLArgs and one IDLValue per case), printed twice (determinism), parsed with parse_idl_args / parse_idl_value, annotated with '
+                 'annotate_types(true, env, types) and compared by IDLValue == and by conv::model_value (floats bitwise). Families: random typed values 30%, '
+                 'one hostile string in text/label/variant-label/method position 30%, numbers (bignums, all widths, finite floats incl -0.0/subnormal/1e±308) '
+                 '12%, blobs over all bytes 8%, vectors of 8..12/20 elements 10%, nesting depth 9..40 10%. A failing value is shrunk to the smallest failing '
+                 'sub-value before the signature is computed. Non-trivial: every case; distinct by hash(type shapes to depth 5, value node counts, number of '
+                 'names).'},
+ 'C12': {'assumptions': ['definition names are identifiers that are neither Candid keywords nor primitive type names (`type nat = …` parses in candid but '
+                         '`nat` in type position stays the primitive)',
+                         'argument names carry no meaning (spec): they are not compared',
+                         'doc comments are not part of the compared interface',
+                         'the shape `type F = func (service { m : F }) -> ()` is excluded from this workload (check_prog rejects it: C14 finding)',
+                         'record id 2^32-1 excluded (C13 overflow); names containing NUL only in the dedicated family `nul-in-names` (4% of the budget)',
+                         "programs whose source is rejected by check_prog are counted under excluded:source-rejected (C14's business)"],
+         'budget_quick': 20,
+         'budget_thorough': 120,
+         'lanes_quick': ['D', 'R'],
+         'lanes_thorough': ['D', 'R'],
+         'required_counters': ['agree:compile',
+                               'agree:pretty_print',
+                               'agree:export',
+                               'checked:programs',
+                               'cover:actor:service',
+                               'cover:actor:by-name',
+                               'cover:actor:class-service',
+                               'cover:actor:class-by-name',
+                               'cover:recursive-def',
+                               'cover:mutually-recursive-defs',
+                               'cover:name:candid-keyword',
+                               'cover:name:foreign-keyword',
+                               'cover:name:needs-escape',
+                               'cover:name:non-ascii',
+                               'cover:label:named',
+                               'cover:label:numeric',
+                               'cover:label:tuple-shorthand',
+                               'cover:record:mixed-labels',
+                               'cover:variant:null-shorthand',
+                               'cover:ty:blob',
+                               'cover:def:func',
+                               'cover:def:service',
+                               'cover:def:alias-of-def',
+                               'cover:method:by-name',
+                               'cover:nested:service',
+                               'cover:export:List',
+                               'cover:export:Both',
+                               'cover:export:Items'],
+         'rule': 'programs generated well-formed by construction (own AST, own printer: every constructor, named/numeric/tuple labels, quoted/keyword/odd '
+                 'names, recursive + mutually recursive defs, func/service aliases, service constructors) -> str::parse::<IDLProg> + check_prog; '
+                 'pretty::candid::compile AND syntax::pretty_print output must parse + check again and every definition (by name), the init args and the '
+                 'service must be structurally equal (gfp bisimulation requal: ids, method names, annotations, arg order, recursion) to the MODEL of the '
+                 "source program computed from our AST by the spec's desugaring; service_equal(original, printed) must be Ok; second call gives identical "
+                 'text; 23 Rust types exported via TypeContainer::add + compile(env, None): printed env re-checks to the same definitions and the root equals '
+                 'a hand-written model of the Rust type. non-trivial = distinct (shape of all defs + actor, name class)'},
+ 'C13': {'assumptions': ['Inputs with a backslash directly before a non-ASCII character make the string sub-lexer slice a str inside a character (UB; SIGABRT '
+                         'under debug assertions). They are examined in a child process (the worker re-executed with VERIF_C13_CHILD_INPUT): shard 0 runs 7 '
+                         'witnesses (one per entry point) + at most 4 generated inputs that way; all other such inputs are examined in-process with the '
+                         "offending character replaced by 'q' (counter cover:sanitized-after-fork-budget). The abort|… signatures therefore only appear in "
+                         'shard 0.',
+                         'An error that carries a String with invalid UTF-8 is reported (invalid-utf8-in-error|…|token) and NOT rendered natively (that is the '
+                         'UB itself; natively it panics inside core::fmt or prints garbage). The Miri lane should render `parse_idl_args("(1 \\"\\\\e0\\")")`.',
+                         'pretty_parse / pretty_diagnose are never called (they write to stderr); report() is.',
+                         'In release the id+1 overflow wraps silently; it is reported only for the dedicated shape `record { MAX <sep> x ; y }` (value and '
+                         'type form) as field-id-wrapped|…',
+                         'Nesting depth <= 128 by construction.'],
+         'budget_quick': 25,
+         'budget_thorough': 180,
+         'lanes_quick': ['D', 'R'],
+         'lanes_thorough': ['D', 'R', 'A', 'V', 'M'],
+         'required_counters': ['family:token-soup',
+                               'family:one-token-mutants',
+                               'family:valid-sentences',
+                               'family:boundary-numerals',
+                               'family:escapes',
+                               'family:unterminated-and-comments',
+                               'family:deep-nesting',
+                               'family:character-mutants',
+                               'result:IDLProg:ok',
+                               'result:IDLType:ok',
+                               'result:IDLTypes:ok',
+                               'result:IDLInitArgs:ok',
+                               'result:Test:ok',
+                               'result:parse_idl_args:ok',
+                               'result:parse_idl_value:ok',
+                               'cover:err:User',
+                               'cover:err:UnrecognizedToken',
+                               'cover:err:UnrecognizedEof',
+                               'cover:class:hex-0X-prefix',
+                               'cover:class:field-id-u32-max',
+                               'cover:class:raw-high-byte-escape',
+                               'cover:past-first-token',
+                               'cover:mutation:delete',
+                               'cover:mutation:duplicate',
+                               'cover:mutation:replace',
+                               'cover:mutation:swap'],
+         'rule': 'Every input goes through all 7 entry points (str::parse::<IDLProg|IDLType|IDLTypes|IDLInitArgs|test::Test>, parse_idl_args, parse_idl_value) '
+                 'under catch; Ok results are type-checked (check_prog / ast_to_type / check_init_args) under catch; Err results are inspected without '
+                 'rendering first (span inside 0..=len and on char boundaries, no invalid UTF-8 String in the error), then to_string() and report() under '
+                 'catch. Families: regression witnesses (first case of each shard), token soup over the lexer alphabet 22%, grammar-directed sentences (args, '
+                 'value, type, tuple type, program, init args, test script) 12%, the same with one (20%: two) token '
+                 'deleted/duplicated/replaced/swapped/inserted/truncated 30%, boundary numerals in 28 templates 10%, every escape form in 22 string positions '
+                 '12%, unterminated strings / nested and unclosed comments / doc-comment trivia 5%, nesting 1..128 of 14 constructs 4%, character-level '
+                 'mutants 3%. A panicking input is shrunk (greedy chunk removal, same panic location) and the class label is computed from the shrunk input. '
+                 "Non-trivial: Ok, or error offset past the first token. Distinct by (entry, 'ok', first three words with digits->0) or (entry, 'err', first "
+                 '40 chars of the message without digits).'},
+ 'C14': {'assumptions': ['`query query` / `oneway oneway` count as two annotations (property text: at most one annotation)',
+                         'argument names must be unique within one argument list or one result list (the generator keeps them unique across both)',
+                         'two method names with the same hash are legal (methods are identified by name; spec)',
+                         'a rejection by panic counts as a rejection here (anomaly:rejected-by-panic) — totality is C13',
+                         'Motoko binding only when every method name is an identifier (documented panic otherwise)',
+                         'subtype against a renamed copy is only monitored for panics; an Err there is counted (anomaly:…), not a violation',
+                         'init-args mutants use self-contained init-args programs (check_init_args checks its own definitions before merging the main env)'],
+         'budget_quick': 20,
+         'budget_thorough': 120,
+         'lanes_quick': ['D', 'R'],
+         'lanes_thorough': ['D', 'R'],
+         'required_counters': ['agree:accepted',
+                               'agree:rejected',
+                               'agree:init-args-accepted',
+                               'agree:init-args-rejected',
+                               'rejected-at:parse',
+                               'rejected-at:check',
+                               'walk:closed',
+                               'walk:trace_type',
+                               'walk:subtype',
+                               'walk:subtype-renamed-copy-ok',
+                               'walk:encoded',
+                               'walk:javascript',
+                               'walk:typescript',
+                               'walk:motoko',
+                               'walk:rust',
+                               'cover:fault:UndefinedName',
+                               'cover:fault:DuplicateDef',
+                               'cover:fault:AliasCycle1',
+                               'cover:fault:AliasCycle5',
+                               'cover:fault:DupFieldSameName',
+                               'cover:fault:DupFieldSameNumber',
+                               'cover:fault:DupFieldNameAndItsHash',
+                               'cover:fault:DupFieldCollidingNames',
+                               'cover:fault:DupFieldTuplePosition',
+                               'cover:fault:DupMethod',
+                               'cover:fault:OnewayWithResult',
+                               'cover:fault:DupArgName',
+                               'cover:fault:TwoAnnotations:query-oneway',
+                               'cover:fault:MethodNotFunc:alias-prim-chain2',
+                               'cover:fault:ActorNotService:class-func-chain1',
+                               'cover:position:def',
+                               'cover:position:def+svc',
+                               'cover:position:init',
+                               'cover:position:actor',
+                               'cover:lookalike:MethodViaAliasChain',
+                               'cover:lookalike:ProductiveCycle',
+                               'cover:lookalike:CollidingMethodNames',
+                               'cover:init-fault:UndefinedName'],
+         'rule': 'verdict of str::parse::<IDLProg> + check_prog (a parse error is a rejection) against the construction verdict: programs well-formed by '
+                 'construction and well-formed look-alikes of fault shapes must be accepted; single-fault mutants (undefined name, duplicate def, alias cycle '
+                 '1..5, duplicate id: same name / same number / name + its hash / two colliding names (birthday search) / tuple position, duplicate method, '
+                 'method that is not a function directly or through alias chains 1..3, oneway with result, two annotations, duplicate argument name, actor / '
+                 'constructor result that is not a service) planted at random positions (def, nested service, func arg, init arg, actor), each re-judged by an '
+                 'independent spec judge (prog::well_formed), must be rejected. Same for IDLInitArgs + check_init_args. Every accepted env is walked on a 64 '
+                 'MiB thread: closed, trace_type, subtype(t,t) Ok (and against a renamed copy), a generated value of every inhabited def / method arg / init '
+                 'arg encodes, JS/TS/Motoko/Rust compile return without panic; accepted env must equal the model of the source. non-trivial = distinct (shape, '
+                 'kind) resp. (fault, position, #defs)'},
+ 'C15': {'assumptions': ["Types with a field id 4294967295 are excluded from the parser-path family (C13's id+1 overflow would panic in debug); counter "
+                         'excluded:field-id-u32-max(C13).',
+                         'The derived corpus avoids the names `_` and names containing `,` (known C02/C10 untyped-decoder defects); the wire family does '
+                         'generate them and reports them under two dedicated signatures.',
+                         'derive rejecting colliding names is compile-time only: not covered here (needs a compile-fail fixture).',
+                         'Equal bytes for the four spellings are not demanded (counted: observed:spellings-give-different-bytes; 0 so far).'],
+         'budget_quick': 15,
+         'budget_thorough': 90,
+         'lanes_quick': ['D', 'R'],
+         'lanes_thorough': ['D', 'R'],
+         'required_counters': ['agree:idl_hash',
+                               'agree:label-self-consistent',
+                               'agree:label-order',
+                               'cover:birthday-pairs-found',
+                               'cover:collision:birthday-pair',
+                               'cover:collision:fixed-pair',
+                               'cover:collision:name-vs-own-id',
+                               'agree:collision-rejected:type-parser:record',
+                               'agree:collision-rejected:type-parser:variant',
+                               'agree:collision-rejected:value-parser:record',
+                               'agree:collision-rejected:args-parser:record',
+                               'agree:collision-rejected:prog-parser:record',
+                               'agree:collision-rejected:check_unique',
+                               'agree:same-type:record',
+                               'agree:same-type:variant',
+                               'agree:named-value-numeric-type',
+                               'agree:wire:named-value/named-type',
+                               'agree:wire:numeric-value/numeric-type',
+                               'agree:wire-ids-ascending-and-value',
+                               'cover:wire:value-fields-shuffled',
+                               'agree:header-accepted',
+                               'agree:header-rejected',
+                               'cover:header:record:bad-order',
+                               'cover:header:variant:bad-order',
+                               'agree:derived-field-ids',
+                               'agree:derived-untyped-decode',
+                               'agree:derived-native-roundtrip',
+                               'agree:derived-numeric-to-native',
+                               'agree:macro-rejects:record!:kviccgm/jmst',
+                               'agree:macro-rejects:variant!:rf_kdyb/kmoz',
+                               'agree:macro-rejects:record!:a/97',
+                               'agree:macro-control:record!',
+                               'cover:name-class:unicode',
+                               'cover:name-class:candid-keyword',
+                               'cover:name-class:empty',
+                               'cover:name-class:numeric-looking'],
+         'rule': 'Families: (1) 20% idl_hash(s) == R5 and Label::{Named,Id,Unnamed}: get_id/eq/cmp/partial_cmp/Hash/HashMap+BTreeMap insert under one '
+                 'spelling, look up under the other, order against a second label, sorting; strings: ASCII ids, lexer keywords, prim names, other-language '
+                 'keywords, numeric-looking, empty, arbitrary Unicode, 20..220-char names. (2) 13% colliding pairs (24 found per worker by a birthday search '
+                 'over 300k short strings + 3 fixed identifier pairs + name-vs-own-id) must be rejected by IDLType/IDLTypes/IDLProg/value/args parsers and '
+                 'check_unique, with accepted controls. (3) 20% parser path: record/variant type written with names (my quoting) vs numeric ids -> ast_to_type '
+                 '-> from_candid -> requal2 (+ sorted by id, candid Type ==), and a value written with names annotated with the numeric type. (4) 20% wire: '
+                 'value×type spellings {named,numeric}² encoded with to_bytes_with_types, reference-decoded (ids ascending, value), decoded against the other '
+                 'spelling, value fields shuffled in half the cases. (5) 10% hand-crafted record/variant table entries with ascending / duplicate / unsorted '
+                 'ids vs IDLArgs::from_bytes. (6) 15% 38 derived types (renames to keywords, Unicode, spaces, quotes, numeric-looking; raw identifiers; '
+                 'tuple/newtype/unit/struct variants; generics): T::ty() ids == sorted R5 hashes of the names written next to the type, encode, reference '
+                 'decode, decode untyped against numeric and named type, native round trip, numeric re-encode -> native. (7) 2% record!/variant! with literal '
+                 'colliding labels (panic = rejection) and controls. Non-trivial: every case; distinct by hash of the strings/bytes.'},
+ 'C16': {'assumptions': ['`exhaustive` must contain one note per shard and the per-shard counts must sum to 65793.',
+                         'A panic of from_slice on > 29 bytes is the documented rejection.',
+                         'Case-insensitivity means ASCII case only (spec: base32 alphabet); U+212A, U+017F, U+0131 must be rejected.'],
+         'budget_quick': 15,
+         'budget_thorough': 90,
+         'lanes_quick': ['D', 'R'],
+         'lanes_thorough': ['D', 'R', 'M'],
+         'required_counters': ['cover:bytes:legal',
+                               'cover:bytes:overlong',
+                               'cover:len%5=0',
+                               'cover:len%5=1',
+                               'cover:len%5=2',
+                               'cover:len%5=3',
+                               'cover:len%5=4',
+                               'agree:text-accepted',
+                               'agree:text-rejected',
+                               'cover:text:substitute:alphabet',
+                               'cover:text:substitute:upper',
+                               'cover:text:substitute:digit-outside',
+                               'cover:text:substitute:non-ascii',
+                               'cover:text:substitute:pad',
+                               'cover:text:insert:dash',
+                               'cover:text:delete:dash',
+                               'cover:text:delete:alphabet',
+                               'cover:text:case:upper',
+                               'cover:text:case:mixed',
+                               'cover:text:dash:moved',
+                               'cover:text:dash:all-removed',
+                               'cover:text:dash:doubled',
+                               'cover:text:truncate:prefix',
+                               'cover:text:overlong-payload',
+                               'cover:text:checksum:wrong',
+                               'cover:text:trailing-bits',
+                               'cover:text:degenerate',
+                               'agree:json-roundtrip',
+                               'agree:json-alt-rejected',
+                               'agree:json-alt-accepted',
+                               'agree:bincode-roundtrip',
+                               'agree:cbor-roundtrip',
+                               'agree:bincode-overlong-rejected',
+                               'agree:cbor-overlong-rejected',
+                               'cover:wire:legal',
+                               'cover:wire:overlong',
+                               'agree:wire-untyped-rejected',
+                               'agree:wire-native-rejected'],
+         'rule': 'Families: bytes 20% — EXHAUSTIVE all 65 793 byte strings of length <= 2 (chunks split by shard; note pushed to stats.exhaustive with the '
+                 'count checked by the shard), then random 0..300 bytes: every constructor (try_from_slice, from_slice, TryFrom<&[u8]>/<Vec<u8>>/<&Vec<u8>>), '
+                 'accessors, to_text/Display == R6 text, from_text/FromStr/TryFrom<&str> of it; single-character edits 35% — one random principal, one '
+                 'position, all 59 substitution and insertion characters (alphabet, upper case, 0 1 8 9 = _ space dash, controls, Kelvin sign, long s, dotless '
+                 'i, full-width a, soft hyphen, ZWSP, BOM), deletion, transposition; spellings 25% — upper/mixed case, dashes '
+                 'removed/moved/doubled/leading/trailing/regrouped, every prefix and suffix, wrong checksum with perfect grouping, 30..200-byte payloads with '
+                 'correct checksum, empty/dashes/whitespace, non-zero trailing bits, padding, random alphabet strings; serde 10% — serde_json, bincode, '
+                 'serde_cbor round trip, exact wire form, JSON strings with 8 kinds of non-canonical spelling, over-long byte strings into bincode/cbor; wire '
+                 '10% — DIDL 00 01 68 01 <leb len> <bytes> for 0..200 bytes through IDLArgs::from_bytes, Decode!(_, Principal) and Encode!. Verdict: '
+                 'from_text(s) is Ok(p) iff principal_parse_strict(s) == Some(p.bytes). Non-trivial: every text that is not the canonical one; distinct by '
+                 'hash of the text / bytes.'},
+ 'C17': {'assumptions': ['the IDL recorder models the constructor surface of the JS candid library used by generated code, incl. idlLabelToId (`_N_` = id N, '
+                         'otherwise hash of the UTF-8 bytes) and Object.entries semantics; codecs are not modelled',
+                         "programs rejected by candid's checker are counted under excluded:not-accepted (agreement is C12/C14's business)",
+                         'ad-hoc generator avoids two checker problems outside C17: func->nested service->method `m : F` cycles (validate_type recursion, '
+                         "'Recursion limit exceeded') and record field id 2^32-1 (grammar `id + 1` overflow)"],
+         'budget_quick': 30,
+         'budget_thorough': 180,
+         'inconclusive_counters': ['inconclusive:node-missing', 'inconclusive:node-unusable'],
+         'lanes_quick': ['D', 'R'],
+         'lanes_thorough': ['D', 'R'],
+         'max_workers': 8,
+         'required_counters': ['executed',
+                               'node-runs',
+                               'outcome:equal',
+                               'cover:js-rec',
+                               'cover:js-getType',
+                               'cover:init-args',
+                               'cover:actor:var',
+                               'cover:actor:class',
+                               'cover:def:js-keyword',
+                               'cover:label:needs-quotes',
+                               'producer:prog-random',
+                               'producer:adhoc-mixed'],
+         'rule': 'every generated well-typed program with a main service (ad-hoc generator: mixed / hostile / keyword / recursive name classes; crate::prog '
+                 'random + hostile; the 16 repo assets with a service) is compiled by bindings::javascript::compile, imported by node 20 as an ES module '
+                 "(strict mode) against the recording IDL (js/idl_recorder.mjs, object keys -> field ids as @dfinity/candid's idlLabelToId) and the recorded "
+                 'service and init graphs must be requal2 to the model types. non-trivial = distinct program texts whose module was executed and that have >= '
+                 '1 method or init arg'},
+ 'C18': {'assumptions': ['only the emitted *type definitions* are compiled (ic_cdk / ic-agent are not available offline), with `use candid::{self, CandidType, '
+                         'Deserialize, Principal};` as in the templates; call stubs are checked textually in C19',
+                         "rustc's deny-by-default bidi-codepoint lints on doc comment *content* are allowed in the generated crate",
+                         'a compile error is reported only after the module failed again when compiled alone (cargo check)',
+                         'differences without a recognised root cause are reported under their generic shape class only if nothing in the same program has a '
+                         'recognised cause (overlapping defects give unstable shapes); they are counted otherwise'],
+         'budget_quick': 75,
+         'budget_thorough': 360,
+         'inconclusive_counters': ['inconclusive:cargo-pipeline-failed', 'inconclusive:prebuild-failed'],
+         'lanes_quick': ['D'],
+         'lanes_thorough': ['D'],
+         'max_workers': 1,
+         'required_counters': ['modules-compiled', 'agree:type', 'outcome:compiles', 'cover:module-A', 'cover:module-B', 'rounds'],
+         'rule': 'every generated well-typed program: emit_bindgen (A) as is and (B) with a synthetic service vrf_m_i : (Def_i)->(Def_i); the emitted type '
+                 'definitions are compiled in a generated crate (rsbind/), the binary prints T::ty() of every definition / method argument / result / init '
+                 'argument as a type graph, each must be requal2 to the model; syn-level: item names distinct, field/variant names distinct, two probed items '
+                 'with the same Rust type expression have equal source types. non-trivial = distinct programs with >= 1 item judged after compilation'},
+ 'C19': {'assumptions': ['NO TypeScript or Motoko compiler in the sandbox: closure and injection are checked lexically/structurally only (lexers written from '
+                         "ECMAScript §12 / motoko source_lexer.mll); type errors, TS reserved type names (`type string`), Motoko's missing Float32 etc. are "
+                         'out of reach',
+                         'Motoko is generated only when every method name of every service type is an ASCII identifier (documented panic otherwise)',
+                         'trailing separators before a closing bracket are dropped before token streams are compared (pretty-printer layout)',
+                         'the names differential needs a twin whose placeholder hashes keep the field order; cases without one are excluded and counted'],
+         'budget_quick': 40,
+         'budget_thorough': 240,
+         'inconclusive_counters': ['inconclusive:node-missing', 'inconclusive:node-unusable'],
+         'lanes_quick': ['D', 'R'],
+         'lanes_thorough': ['D', 'R'],
+         'max_workers': 8,
+         'required_counters': ['checked:js',
+                               'checked:ts',
+                               'checked:motoko',
+                               'checked:rust',
+                               'agree:ts-methods',
+                               'agree:motoko-methods',
+                               'agree:rust-methods',
+                               'agree:docs:ts',
+                               'agree:docs:motoko',
+                               'agree:docs:rust',
+                               'agree:names:ts',
+                               'agree:names:motoko',
+                               'generated:rust-agent',
+                               'generated:rust-stub',
+                               'producer:prog-random'],
+         'rule': 'every generated well-typed program (with/without service and init args; ad-hoc + crate::prog + all 17 checked assets): '
+                 'JS/TS/Motoko/Rust(canister_call; 1/3 of the cases also agent+stub) generators under catch_unwind, twice (identical); JS executed by node '
+                 '(definitions-only output wrapped into a factory); Rust parsed by syn (referenced single-ident types defined, one fn per method, call '
+                 'literals = method names, serde renames = labels, define_service! literals escaped, stub metadata literal); TS/Motoko lexed by own lexers: '
+                 'definitions unique, referenced type names defined, service methods exactly once; differentials: same program with vs without (hostile) docs '
+                 '-> identical code tokens (TS, Motoko, Rust via proc_macro2, JS text); hostile names vs order-preserving benign twin -> identical token '
+                 'kinds, TS string payload decodes to the name. non-trivial = distinct program texts'},
+ 'C20': {'assumptions': ['values are compared by abstract meaning (blob == vec nat8, None == null at opt, anything at reserved); a Vec->Blob change by '
+                         'annotate_types is counted (note:annotate-changes-representation), not flagged',
+                         'Err is always an acceptable outcome (also for inhabited types)',
+                         'budget slack: allowed depth = configured depth + sum of static depths of reachable definitions + 2; allowed nodes = '
+                         '(size+10)*(width+1)^min(static depth,6)*#types; only 20x / 100x excesses are flagged; cases with a per-definition depth/size '
+                         'override are not budget-judged',
+                         'shape classes with two recursion-until-stack-guard witnesses are afterwards run at 1/16 (skipped:known-runaway-shape): each such '
+                         'call costs 0.1 s (debug) to seconds (release)',
+                         'value lists never contain the record id 2^32-1 (value grammar overflow = C13 finding)',
+                         'a helper that is silent for 120 s is killed and counted (anomaly:helper-silent-for-120s), never a verdict'],
+         'budget_quick': 20,
+         'budget_thorough': 120,
+         'lanes_quick': ['D', 'R'],
+         'lanes_thorough': ['D', 'R'],
+         'required_counters': ['agree:typed+annotated+encoded',
+                               'outcome:ok',
+                               'outcome:err',
+                               'helper:spawned',
+                               'cover:type-class:finite',
+                               'cover:type-class:recursive',
+                               'cover:type-class:vec-recursion',
+                               'cover:type-class:uninhabited-recursive',
+                               'cover:type-class:variant-empty',
+                               'cover:type-class:empty',
+                               'cover:seed:empty',
+                               'cover:seed:short',
+                               'cover:seed:long',
+                               'cover:seed:all-zero',
+                               'cover:seed:all-0xff',
+                               'cover:seed:random',
+                               'cover:config:depth',
+                               'cover:config:size',
+                               'cover:config:width',
+                               'cover:config:range',
+                               'cover:config:text',
+                               'cover:config:value-well-typed-arg',
+                               'cover:config:value-ill-typed-arg',
+                               'cover:config:scoped',
+                               'cover:ok-with-well-typed-value-list'],
+         'rule': 'random::any(seed, configs, env, types, scope) over generated environments/type lists (gen::types incl. empty, variant {}, uninhabited, '
+                 'list/tree/vec-recursive, reference types, 60-deep nesting) x seeds (empty, short, long 1-8 KiB, all-zero, all-0xff, pattern, random) x TOML '
+                 'configs (depth/size/width/range/text kind at top level, by type, by label, by argument, by func:/arg:/ret: scope; value lists well- and '
+                 'ill-typed): result is Err, or Ok(args) with len == #types, R7 has_type(model_value(arg), t), annotate_types(false) returns the same abstract '
+                 'values, to_bytes_with_types Ok and the reference decoder R1 reads the same values; no panic / process death on a 2 MiB stack (calls run in a '
+                 'forked helper process so a death is reported with its witness); value depth / node count vs configured budget recorded in maxima, flagged at '
+                 '20x (depth) / 100x (nodes). non-trivial = distinct (type shapes, seed class, config class, outcome)'},
+ 'selftest': {'budget_quick': 8,
+              'budget_thorough': 30,
+              'lanes_quick': ['D'],
+              'lanes_thorough': ['D'],
+              'max_workers': 4,
+              'required_counters': ['spec:agree'],
+              'rule': 'model self-tests: every assert of /repo/test/*.test.did replayed through R1+R2; random (env, types, values): R1 encode/decode identity, '
+                      'R2 identity coercion, R3 reflexive, R3-yes implies R2 succeeds. non-trivial = distinct (wire type, expected type) pairs or distinct '
+                      'spec assertions'}}
